@@ -143,7 +143,58 @@ def check_sequence(case: dict):
         require(len(path) - 1 == dist[e], "C02:sequence:not-shortest", f"query {k} of {case['queries']}: {s}->{e}: {len(path) - 1} steps, minimum {dist[e]}; path={path}")
         n_conn += 1
         nt = nt or (s != e and cyc[comp_of[s]])
-    return {"nt": nt and n_conn >= 2, "labels": ["sequence"]}
+        if case.get("scribble") and isinstance(res, np.ndarray) and res.flags.writeable:
+            # a caller may do what it likes with the array it got; later answers must not depend on it
+            res += 7
+        if case.get("rebuild") and k % 2 == 1:
+            m = L.lattice(g)  # an equal maze built separately must answer the same way
+    return {"nt": nt and n_conn >= 2, "labels": ["sequence"] + (["scribble"] if case.get("scribble") else [])}
+
+
+def check_generated(case: dict):
+    """mazes as the generators hand them out (generation metadata attached): every ordered pair of cells against the BFS model"""
+    m = call("C02:generator", L.run_generator, case)
+    g = L.g_of(m)
+    r, c = g["r"], g["c"]
+    a = M.adj(g)
+    cells = sorted(a)
+    comps = M.components(a)
+    nt = False
+    for s in cells:
+        dist = M.bfs(a, s)
+        for e in cells:
+            if (s[0] * 31 + s[1] * 17 + e[0] * 7 + e[1] + case["np_seed"]) % case.get("stride", 1) != 0:
+                continue
+            if e not in dist:
+                try:
+                    res = m.find_shortest_path(s, e)
+                except ValueError:
+                    continue
+                except Exception as ex:  # noqa: BLE001
+                    raise Violation(f"C02:generated:disconnected-raises:{type(ex).__name__}", f"{s}->{e}: {type(ex).__name__}: {ex}"[:300])
+                raise Violation("C02:generated:disconnected-returned-path", f"{case['gen']} {case.get('kw')}: {s}->{e} not connected but got {np.asarray(res).tolist()}")
+            try:
+                res = m.find_shortest_path(s, e)
+            except Exception as ex:  # noqa: BLE001
+                raise Violation(f"C02:generated:raises:{type(ex).__name__}", f"{case['gen']} {case.get('kw')} on {r}x{c}: {s}->{e} are connected (distance {dist[e]}) "
+                                f"but the solver raised {type(ex).__name__}: {str(ex)[:120]}; bits={g['cl']}")
+            path = L.as_cells(np.asarray(res))
+            prob = M.path_problems(g, a, path, start=s, end=e, need_shortest=False, need_simple=False)
+            require(prob is None, "C02:generated:unsound", f"{s}->{e}: {prob}; path={path}")
+            require(len(path) - 1 == dist[e], "C02:generated:not-shortest", f"{s}->{e}: {len(path) - 1} steps, minimum {dist[e]}; path={path}")
+    multi = sum(1 for comp in comps if len(comp) >= 2)
+    labels = [case["gen"]] + (["several-multi-cell-components"] if multi >= 2 else [])
+    return {"nt": len(comps) >= 2 or M.n_edges(g) >= r * c, "labels": labels}
+
+
+@st.composite
+def _generated(draw, hi):
+    name = draw(st.sampled_from(["gen_percolation", "gen_percolation", "gen_dfs_percolation", "gen_dfs", "gen_prim", "gen_wilson"]))
+    case = draw(G.generator_call(lo=2, hi=hi, square=False, names=[name]))
+    if name in ("gen_percolation", "gen_dfs_percolation") and draw(st.booleans()):
+        case["kw"]["p"] = draw(st.sampled_from([0.2, 0.3, 0.4, 0.5, 0.6]))
+    case["stride"] = 1 if case["r"] * case["c"] <= 30 else 3
+    return case
 
 
 @st.composite
@@ -167,7 +218,7 @@ def _sequences(draw, hi):
         else:
             e = draw(G.cell_in(r, c))
         qs.append([s, e])
-    return {"g": g, "queries": qs}
+    return {"g": g, "queries": qs, "scribble": draw(st.booleans()), "rebuild": draw(st.booleans())}
 
 
 def _exhaustive_medium(shard: int, nshards: int):
@@ -217,4 +268,5 @@ def subs(tier: str):
             examples=150 if quick else 2500,
         ),
         Sub(name="query-sequences", check=check_sequence, kind="hypothesis", strategy=lambda: _sequences(10 if quick else 20), examples=60 if quick else 1000),
+        Sub(name="generated-mazes-with-metadata", check=check_generated, kind="hypothesis", strategy=lambda: _generated(7 if quick else 10), examples=40 if quick else 600),
     ]
